@@ -111,7 +111,10 @@ impl InkList {
             let mut names = Vec::new();
 
             for k in self.items.keys() {
-                names.push(k.get_origin_name().unwrap().clone());
+                // items without a known origin (written as "?.item") have no origin name
+                if let Some(origin_name) = k.get_origin_name() {
+                    names.push(origin_name.clone());
+                }
             }
 
             return names;
